@@ -391,9 +391,16 @@ impl Prioritize {
 
             // Streams pending capacity may have been reset before capacity
             // became available. In that case, the stream won't want any
-            // capacity, and so we shouldn't "transition" on it, but just evict
-            // it and continue the loop.
+            // capacity, and so we shouldn't "transition" on it (the caller may
+            // still be working with it), but just evict it and continue the
+            // loop. Being in this queue may have been the last thing keeping
+            // the stream alive, so hand it to `pop_frame`, which releases
+            // streams that have nothing left to send.
             if !(stream.state.is_send_streaming() || stream.buffered_send_data > 0) {
+                if stream.is_released() {
+                    let mut stream = stream;
+                    self.pending_send.push(&mut stream);
+                }
                 continue;
             }
 
